@@ -225,4 +225,205 @@ Proof.
     + intros _ h. apply count_perm, Hperm.
   - rewrite o_order in Hio. discriminate.
 Qed.
+
+(* ================================================================== *)
+(** * scalars, sets, dicts *)
+
+Lemma diff_atom_refl a p1 p2 : diff_atom udiff no_skip a a p1 p2 = [].
+Proof.
+  unfold diff_atom. cbn [no_skip].
+  destruct a; cbn [atom_ty ty_eqb negb]; try (rewrite py_eq_refl; reflexivity).
+  - unfold diff_str. rewrite ValueFacts.pystr_eqb_refl. reflexivity.
+  - unfold diff_str. rewrite ValueFacts.pystr_eqb_refl. reflexivity.
+Qed.
+
+Lemma first_per_hash_incl (hatom : atom -> pystr) l seen x : In x (first_per_hash hatom l seen) -> In x l.
+Proof.
+  revert seen; induction l as [|a r IH]; intros seen; cbn [first_per_hash]; [auto|].
+  destruct (existsb (pystr_eqb (hatom a)) seen).
+  - intros Hi; right; eapply IH; eauto.
+  - intros [<-|Hi]; [left; reflexivity|right; eapply IH; eauto].
+Qed.
+
+Lemma diff_set_same (hatom : atom -> pystr) xs ys p1 p2 :
+  (forall x, In x xs <-> In x ys) -> diff_set hatom no_skip xs ys p1 p2 = [].
+Proof.
+  intros Hs. unfold diff_set.
+  match goal with |- ?a ++ ?b = [] => assert (Ha : a = []); [|assert (Hb : b = []); [|rewrite Ha, Hb; reflexivity]] end;
+  apply flat_map_nil; intros a Hin;
+    apply first_per_hash_incl in Hin.
+  - assert (Hx : existsb (pystr_eqb (hatom a)) (map hatom xs) = true).
+    { apply existsb_exists. exists (hatom a). split; [|apply ValueFacts.pystr_eqb_refl].
+      apply in_map. apply Hs. exact Hin. }
+    rewrite Hx. reflexivity.
+  - assert (Hx : existsb (pystr_eqb (hatom a)) (map hatom ys) = true).
+    { apply existsb_exists. exists (hatom a). split; [|apply ValueFacts.pystr_eqb_refl].
+      apply in_map. apply Hs. exact Hin. }
+    rewrite Hx. reflexivity.
+Qed.
+
+Definition io_common (kvs2 : list (atom * value)) (k2 : list atom) (p1 p2 : path) :=
+  fix go (l : list (atom * value)) : res :=
+    match l with
+    | [] => ([], [])
+    | (k, v1) :: r =>
+        let rest := go r in
+        if keep_key c k then
+          match find (py_eq k) k2 with
+          | Some k' =>
+              match assoc k' kvs2 with
+              | Some v2 => app2 (dio v1 v2 (snoc p1 (PKey k')) (snoc p2 (PKey k'))) rest
+              | None => rest
+              end
+          | None => rest
+          end
+        else rest
+    end.
+
+Definition io_dict (kvs1 kvs2 : list (atom * value)) (p1 p2 : path) : res :=
+  let k1 := keys_of c kvs1 in
+  let k2 := keys_of c kvs2 in
+  if dict_shortcut excl c k1 k2 p1 then (rpt no_skip KValue p1 p2 (Some (VDict kvs1)) (Some (VDict kvs2)) None, [])
+  else
+    let added := flat_map (fun k => if mem_atom k k1 then []
+                   else rpt no_skip KDictAdd (snoc p1 (PKey k)) (snoc p2 (PKey k)) None (assoc k kvs2) None) k2 in
+    let removed := flat_map (fun k => if mem_atom k k2 then []
+                   else rpt no_skip KDictRem (snoc p1 (PKey k)) (snoc p2 (PKey k)) (assoc k kvs1) None None) k1 in
+    let common := io_common kvs2 k2 p1 p2 kvs1 in
+    (added ++ removed ++ fst common, snd common).
+
+Lemma dio_dict kvs1 kvs2 p1 p2 : dio (VDict kvs1) (VDict kvs2) p1 p2 = io_dict kvs1 kvs2 p1 p2.
+Proof. reflexivity. Qed.
+
+Lemma shortcut_same_keys k1 k2 p1 :
+  (forall k, In k k2 -> mem_atom k k1 = true) -> (forall k, In k k1 -> mem_atom k k2 = true) ->
+  dict_shortcut excl c k1 k2 p1 = false.
+Proof.
+  intros H21 H12. unfold dict_shortcut. destruct (Nat.eqb (thr_num c) 0); [reflexivity|].
+  rewrite (filter_nil (fun k => negb (mem_atom k k2)) k1) by (intros k Hk; rewrite (H12 k Hk); reflexivity).
+  rewrite app_nil_r.
+  assert (Hi : filter (fun k => mem_atom k k1) k2 = k2).
+  { clear H12. induction k2 as [|k r IH]; cbn; [reflexivity|].
+    rewrite (H21 k (or_introl eq_refl)). f_equal. apply IH. intros; apply H21; right; auto. }
+  rewrite Hi.
+  assert (Hl : length (filter (fun k => negb (excl (snoc p1 (PKey k)))) k2) <= length k2).
+  { clear. induction k2 as [|k r IH]; cbn; [lia|]. destruct (negb _); cbn; lia. }
+  apply andb_false_iff. right. apply Nat.ltb_ge. nia.
+Qed.
+
+Lemma common_nil kvs2 k2 p1 p2 l :
+  (forall k v1, In (k, v1) l -> keep_key c k = true ->
+     exists v2, find (py_eq k) k2 = Some k /\ assoc k kvs2 = Some v2 /\
+                forall q1 q2, dio v1 v2 q1 q2 = ([], [])) ->
+  io_common kvs2 k2 p1 p2 l = ([], []).
+Proof.
+  induction l as [|[k v1] r IH]; intros Hl; cbn [io_common]; [reflexivity|].
+  fold (io_common kvs2 k2 p1 p2 r). rewrite IH by (intros; eapply Hl; eauto; right; auto).
+  destruct (keep_key c k) eqn:Ek; [|reflexivity].
+  destruct (Hl k v1 (or_introl eq_refl) Ek) as [v2 [Hf [Ha Hd]]].
+  rewrite Hf, Ha, Hd. reflexivity.
+Qed.
+
+Lemma vis_In k (v : value) kvs : In (k, v) (vis o kvs) <-> In (k, v) kvs /\ keep_key c k = true.
+Proof. unfold vis. rewrite filter_In. cbn [fst]. rewrite keep_key_hidden. tauto. Qed.
+
+Theorem io_complete : forall t1 t2 p1 p2,
+  wf t2 = true -> eqv o t1 t2 -> dio t1 t2 p1 p2 = ([], []).
+Proof.
+  intros t1. induction t1 as [a|xs IH|xs IH|kvs IH|xs|xs] using HashProofsC06.value_ind';
+    intros t2 p1 p2 Hwf He; inversion He; subst.
+  - cbn [diff_io no_skip type_of atom_ty]. 
+    assert (Ht : ty_eqb (atom_ty a) (atom_ty a) = true) by (destruct a; reflexivity).
+    rewrite Ht. cbn [negb]. rewrite diff_atom_refl. reflexivity.
+  - rewrite dio_list. apply seq_rel_iter. assumption.
+  - rewrite dio_tuple. apply seq_rel_iter. assumption.
+  - rename kvs' into kvs2.
+    match goal with Hi : items_rel _ _ _ |- _ => inversion Hi as [l1 l2 l2' Hp HF E1 E2]; subst l1 l2 end.
+    cbn [wf] in Hwf. apply andb_true_iff in Hwf as [Hnd Hwfv].
+    assert (F1 : forall k v1, In (k, v1) (vis o kvs) -> exists v2, In (k, v2) (vis o kvs2) /\ eqv o v1 v2).
+    { intros k v1 Hin. destruct (Forall2_in_l _ _ _ _ _ _ HF Hin) as [[k' v2] [Hin2 [Hk Hv]]].
+      cbn [fst snd] in *. subst k'. exists v2. split; auto.
+      eapply Permutation_in; [apply Permutation_sym, Hp|exact Hin2]. }
+    assert (F2 : forall k v2, In (k, v2) (vis o kvs2) -> exists v1, In (k, v1) (vis o kvs)).
+    { intros k v2 Hin. apply (Permutation_in _ Hp) in Hin.
+      destruct (Forall2_in_r _ _ _ _ _ _ HF Hin) as [[k' v1] [Hin1 [Hk Hv]]].
+      cbn [fst snd] in *. subst k'. exists v1. auto. }
+    assert (K21 : forall k, In k (keys_of c kvs2) -> mem_atom k (keys_of c kvs) = true).
+    { intros k Hk. rewrite keys_vis in *. apply in_map_iff in Hk as [[k' v2] [<- Hin]]. cbn [fst].
+      destruct (F2 _ _ Hin) as [v1 Hin1]. apply mem_atom_In. exists k'. split; [|apply py_eq_refl].
+      apply in_map_iff. exists (k', v1). auto. }
+    assert (K12 : forall k, In k (keys_of c kvs) -> mem_atom k (keys_of c kvs2) = true).
+    { intros k Hk. rewrite keys_vis in *. apply in_map_iff in Hk as [[k' v1] [<- Hin]]. cbn [fst].
+      destruct (F1 _ _ Hin) as [v2 [Hin2 _]]. apply mem_atom_In. exists k'. split; [|apply py_eq_refl].
+      apply in_map_iff. exists (k', v2). auto. }
+    rewrite dio_dict. unfold io_dict. rewrite (shortcut_same_keys _ _ _ K21 K12).
+    rewrite flat_map_nil by (intros k Hk; rewrite (K21 k Hk); reflexivity).
+    rewrite flat_map_nil by (intros k Hk; rewrite (K12 k Hk); reflexivity).
+    rewrite common_nil; [reflexivity|].
+    intros k v1 Hin Hkeep.
+    assert (Hv : In (k, v1) (vis o kvs)) by (apply vis_In; auto).
+    destruct (F1 _ _ Hv) as [v2 [Hin2 Heq]]. exists v2.
+    apply vis_In in Hin2 as [Hin2 _].
+    split; [|split].
+    + apply nodup_find.
+      * unfold keys_of. apply nodup_filter. exact Hnd.
+      * unfold keys_of. apply filter_In. split; auto. apply in_map_iff. exists (k, v2). auto.
+    + apply nodup_assoc; auto.
+    + intros q1 q2. rewrite Forall_forall in IH. apply (IH (k, v1) Hin); auto.
+      rewrite forallb_forall in Hwfv. apply (Hwfv (k, v2) Hin2).
+  - cbn [diff_io no_skip type_of ty_eqb negb]. rewrite diff_set_same; [reflexivity|].
+    intro x; split; apply Permutation_in; auto using Permutation_sym.
+  - cbn [diff_io no_skip type_of ty_eqb negb]. rewrite diff_set_same; [reflexivity|].
+    intro x; split; apply Permutation_in; auto using Permutation_sym.
+Qed.
+
+(* ================================================================== *)
+(** * empty => equivalent *)
+
+Definition NA (l : list atom) : Prop := forall a b, In a l -> In b l -> py_eq a b = true -> a = b.
+Lemma NA_incl l l' : incl l l' -> NA l' -> NA l.
+Proof. intros Hi Hn a b Ha Hb. apply Hn; auto. Qed.
+
+Lemma tag_safe_forall v : tag_safe v = true <-> forall a, In a (atoms_of v) -> tag_safe_atom a = true.
+Proof. unfold tag_safe. apply forallb_forall. Qed.
+Lemma tag_safe_incl v w : incl (atoms_of v) (atoms_of w) -> tag_safe w = true -> tag_safe v = true.
+Proof. rewrite !tag_safe_forall. intros Hi Hw a Ha. auto. Qed.
+
+Lemma atoms_item_list x xs : In x xs -> incl (atoms_of x) (atoms_of (VList xs)).
+Proof. intros Hin a Ha. cbn [atoms_of]. apply in_flat_map. eauto. Qed.
+Lemma atoms_item_tuple x xs : In x xs -> incl (atoms_of x) (atoms_of (VTuple xs)).
+Proof. intros Hin a Ha. cbn [atoms_of]. apply in_flat_map. eauto. Qed.
+Lemma atoms_dict_val k v kvs : In (k, v) kvs -> incl (atoms_of v) (atoms_of (VDict kvs)).
+Proof. intros Hin a Ha. cbn [atoms_of]. apply in_flat_map. exists (k, v). split; auto. right; auto. Qed.
+Lemma atoms_dict_key k v kvs : In (k, v) kvs -> In k (atoms_of (VDict kvs)).
+Proof. intros Hin. cbn [atoms_of]. apply in_flat_map. exists (k, v). split; auto. left; auto. Qed.
+
+Lemma ty_eqb_eq a b : ty_eqb a b = true -> a = b.
+Proof. destruct a, b; cbn; congruence. Qed.
+
+Lemma fst_app2 {A B} (a b : list A * list B) : fst (app2 a b) = fst a ++ fst b.
+Proof. reflexivity. Qed.
+Lemma fst_concat_res l : fst (concat_res l) = [] -> forall r, In r l -> fst r = [].
+Proof.
+  unfold concat_res. induction l as [|x r IH]; cbn [fold_right]; [intros _ ? []|].
+  rewrite fst_app2. intros Hn. apply app_eq_nil in Hn as [Hx Hr]. intros y [<-|Hy]; auto.
+Qed.
+
+Lemma diff_atom_nil a b p1 p2 : diff_atom udiff no_skip a b p1 p2 = [] -> a = b.
+Proof.
+  unfold diff_atom. cbn [no_skip].
+  destruct (ty_eqb (atom_ty a) (atom_ty b)) eqn:Et; cbn [negb]; [|rewrite rpt_one; discriminate].
+  apply ty_eqb_eq in Et.
+  destruct a, b; try discriminate Et; unfold report; cbn [no_skip].
+  - reflexivity.
+  - destruct (py_eq (ABool b0) (ABool b)) eqn:E; [|discriminate]. intros _. apply py_eq_same_ty; auto.
+  - destruct (py_eq (AInt z) (AInt z0)) eqn:E; [|discriminate]. intros _. apply py_eq_same_ty; auto.
+  - destruct (py_eq (AHalf twice) (AHalf twice0)) eqn:E; [|discriminate]. intros _. apply py_eq_same_ty; auto.
+  - unfold diff_str. destruct (pystr_eqb s s0) eqn:E.
+    + intros _. apply ValueFacts.pystr_eqb_eq in E. congruence.
+    + destruct (_ && _); discriminate.
+  - unfold diff_str. destruct (pystr_eqb s s0) eqn:E.
+    + intros _. apply ValueFacts.pystr_eqb_eq in E. congruence.
+    + destruct (_ && _); discriminate.
+Qed.
 End Proofs.
